@@ -222,6 +222,24 @@ pub struct Flags {
 }
 impl Flags {
     pub fn random(rng: &mut Rng) -> Flags {
+        // swarm presets: half of the histories enable a small focused feature set, so that each enabled
+        // feature gets a real share of the script (a feature competing with 15 others is hardly ever reached)
+        let preset = rng.below(16);
+        let base = Flags::default();
+        let focused = match preset {
+            0 => Some(Flags { streams: true, canon: true, folds: true, joins: rng.chance(30), ..base.clone() }),
+            1 => Some(Flags { streams: true, sfolds: true, parnext: rng.chance(50), lastinstr: rng.chance(50), ..base.clone() }),
+            2 => Some(Flags { streams: true, sfolds: true, rec: true, parnext: rng.chance(50), lastinstr: rng.chance(50), ..base.clone() }),
+            3 => Some(Flags { streams: true, maps: true, canon: true, folds: true, ..base.clone() }),
+            4 => Some(Flags { xor: true, errs: true, matches: true, lenses: true, ..base.clone() }),
+            5 => Some(Flags { streams: true, news: true, sfolds: true, canon: true, ..base.clone() }),
+            6 => Some(Flags { folds: true, parnext: true, vartarget: true, scalar_ap: true, lenses: true, ..base.clone() }),
+            7 => Some(Flags { streams: true, canon: true, sfolds: true, folds: true, xor: rng.chance(50), ..base.clone() }),
+            _ => None,
+        };
+        if let Some(f) = focused {
+            return f;
+        }
         Flags {
             streams: rng.chance(70),
             canon: rng.chance(60),
@@ -280,6 +298,7 @@ pub enum Shape {
     Num,
     Lit,
     Iter, // fold iterator (element of something)
+    CanonArr, // a whole canonical stream assigned to a scalar (array of stream values, possibly empty)
 }
 #[derive(Clone, Debug)]
 pub struct Var {
@@ -301,6 +320,7 @@ struct Scope {
     folding: Vec<String>, // streams/maps being folded by an enclosing fold: never appended to from inside
     err_ok: bool, // first instruction of an xor right branch: may reference :error:
     under_xor_left_nopar: bool,
+    in_xor_left: bool, // anywhere below the left branch of an xor whose right branch the sequential reading must not reach
     apped: BTreeSet<(String, String)>,
 }
 
@@ -308,6 +328,7 @@ pub struct Gen {
     pub np: usize,
     pub n: usize,
     pub flags: Flags,
+    pub force: Option<usize>, // next node kind (used by `generate` to make sure enabled features occur)
 }
 
 impl Gen {
@@ -343,6 +364,8 @@ impl Gen {
                 },
                 Shape::Arr => vec![Lens::Idx(0)],
                 Shape::Plain => vec![Lens::Field("f".into())],
+                // may fail on an empty canon: never under an xor left branch (the reference model assumes success)
+                Shape::CanonArr if !sc.in_xor_left => vec![Lens::Idx(0)],
                 _ => vec![],
             }
         } else {
@@ -404,7 +427,9 @@ impl Gen {
             _ => Shape::Plain,
         };
         let must_scalar = kind == "arr" || kind == "obj" || kind == "peer";
-        let out = match rng.below(4) {
+        // when streams are enabled and none exists yet, create one early so that canon / stream folds become applicable
+        let want_first_stream = self.flags.streams && !must_scalar && kind != "fail" && !sc.in_fold && sc.streams.is_empty() && rng.chance(50);
+        let out = match if want_first_stream { 2 } else { rng.below(4) } {
             0 | 1 => Out::Scalar(format!("v{id}")),
             2 if self.flags.streams && !must_scalar && kind != "fail" => {
                 if sc.in_fold {
@@ -542,7 +567,74 @@ impl Gen {
             sc.err_ok = false;
             return r;
         }
-        let choice = rng.below(22);
+        // weighted choice: mostly structure (so that scripts reach a useful size), otherwise one of the
+        // features that are enabled for this history and applicable at this point
+        let forced = self.force.take();
+        let choice = if let Some(f) = forced {
+            f
+        } else {
+            let r = rng.below(100);
+            if r < 32 {
+                0
+            } else if r < 45 {
+                4
+            } else if r < 53 && fl.xor {
+                6
+            } else {
+                let mut c: Vec<usize> = vec![99, 99];
+                if fl.streams && (!sc.streams.is_empty() || !sc.wo.is_empty()) {
+                    c.push(7);
+                }
+                if fl.canon && !sc.streams.is_empty() {
+                    c.push(8);
+                    c.push(8);
+                }
+                if fl.folds {
+                    c.push(9);
+                }
+                if fl.sfolds && fl.streams && !sc.streams.is_empty() && !fl.frag16 {
+                    c.push(10);
+                    c.push(10);
+                }
+                if fl.folds && !sc.canons.is_empty() {
+                    c.push(11);
+                }
+                if fl.news && fl.streams {
+                    c.push(12);
+                }
+                if fl.maps && !sc.in_fold {
+                    c.push(13);
+                }
+                if fl.maps && fl.canon && !sc.maps.is_empty() {
+                    c.push(14);
+                }
+                if fl.maps && fl.folds && (!sc.maps.is_empty() || !sc.cmaps.is_empty()) {
+                    c.push(15);
+                }
+                if fl.rec && fl.streams && !fl.frag16 {
+                    c.push(16);
+                }
+                if fl.news {
+                    c.push(17);
+                }
+                if fl.vartarget {
+                    c.push(18);
+                }
+                if fl.matches && !sc.scalars.is_empty() {
+                    c.push(19);
+                }
+                if fl.scalar_ap {
+                    c.push(20);
+                }
+                if fl.never && !sc.in_fold {
+                    c.push(21);
+                }
+                if fl.xor && fl.lenses {
+                    c.push(22);
+                }
+                c[rng.below(c.len())]
+            }
+        };
         let err_ok_in = sc.err_ok;
         let node = match choice {
             0 | 1 | 2 | 3 => {
@@ -567,6 +659,20 @@ impl Gen {
                 }
                 Self::merge_streams(sc, &[&a, &b]);
                 Node::par(l, r)
+            }
+            6 if fl.xor && rng.chance(35) => {
+                // an xor whose left branch does NOT fail: the right branch must never run anywhere
+                // (its calls are not in the sequential reading)
+                let mut a = sc.clone();
+                a.err_ok = false;
+                a.under_xor_left_nopar = true;
+                a.in_xor_left = true;
+                let l = self.gen(rng, depth - 1, &mut a);
+                let mut b = sc.clone();
+                b.err_ok = false;
+                let r = self.gen(rng, depth - 1, &mut b);
+                Self::merge_streams(sc, &[&a, &b]);
+                Node::xor(l, r)
             }
             6 if fl.xor => {
                 let mut a = sc.clone();
@@ -621,6 +727,18 @@ impl Gen {
             }
             9 if fl.folds => {
                 // fold over a scalar array produced right before
+                // sometimes over a lens of an object that is already in scope (possibly produced in a par sibling: a join)
+                let objs: Vec<Var> = sc.scalars.iter().filter(|v| v.shape == Shape::Obj).cloned().collect();
+                if fl.lenses && !objs.is_empty() && rng.chance(45) {
+                    let o = objs[rng.below(objs.len())].clone();
+                    let id = self.id();
+                    let it = format!("it{id}");
+                    let mut b = self.fold_body_scope(sc, &it, false, None);
+                    let body = self.gen(rng, depth - 1, &mut b);
+                    let comb_par = fl.parnext && rng.chance(50);
+                    let inner = if comb_par { Node::par(body, Node::Next(it.clone())) } else { Node::seq(body, Node::Next(it.clone())) };
+                    return_node_fold_lens(o.name, it, inner)
+                } else {
                 let mut s2 = sc.clone();
                 let arr = self.call(rng, &mut s2, "arr");
                 let a = s2.scalars.last().unwrap().clone();
@@ -632,6 +750,7 @@ impl Gen {
                 let comb_par = fl.parnext && rng.chance(50);
                 let inner = if comb_par { Node::par(body, Node::Next(it.clone())) } else { Node::seq(body, Node::Next(it.clone())) };
                 Node::seq(arr, Node::Fold { iterable: Arg::Var { name: a.name, lens: vec![] }, it, body: Box::new(inner), last: None })
+                }
             }
             10 if fl.sfolds && fl.streams && !sc.streams.is_empty() && !fl.frag16 => {
                 let s = sc.streams[rng.below(sc.streams.len())].clone();
@@ -641,7 +760,17 @@ impl Gen {
                 let body = self.gen(rng, depth - 1, &mut b);
                 let comb_par = fl.parnext && rng.chance(50);
                 let inner = if comb_par { Node::par(body, Node::Next(it.clone())) } else { Node::seq(body, Node::Next(it.clone())) };
-                let last = if fl.lastinstr && rng.chance(50) { Some(Box::new(Node::Null)) } else { None };
+                let last = if fl.lastinstr && rng.chance(60) {
+                    // the last instruction runs once, after the last iteration, outside the iterator's scope
+                    if rng.chance(50) {
+                        Some(Box::new(Node::Null))
+                    } else {
+                        let mut ls = sc.clone();
+                        Some(Box::new(self.gen(rng, 1, &mut ls)))
+                    }
+                } else {
+                    None
+                };
                 Node::Fold { iterable: Arg::Var { name: s, lens: vec![] }, it, body: Box::new(inner), last }
             }
             11 if fl.folds && !sc.canons.is_empty() => {
@@ -771,6 +900,17 @@ impl Gen {
                 let id = self.id();
                 let dst = format!("av{id}");
                 let (src, shape) = match self.scalar_arg(rng, sc) {
+                    _ if fl.canon && !sc.canons.is_empty() && rng.chance(40) => {
+                        // a whole canonical stream stored into a scalar; lenses applied to it later carry the canon's origin
+                        let c = sc.canons[rng.below(sc.canons.len())].clone();
+                        (Arg::Canon { name: c, lens: vec![] }, Shape::CanonArr)
+                    }
+                    Some(Arg::Var { name, lens }) if rng.chance(70) => {
+                        // the copy keeps what is known about the shape of an unlensed source
+                        let sh = if lens.is_empty() { sc.scalars.iter().find(|v| v.name == name).map(|v| v.shape.clone()).unwrap_or(Shape::Lit) } else { Shape::Lit };
+                        let sh = if sh == Shape::Iter || sh == Shape::Peer { Shape::Lit } else { sh };
+                        (Arg::Var { name, lens }, sh)
+                    }
                     Some(a) if rng.chance(70) => (a, Shape::Lit),
                     _ => (Arg::Str(format!("apl{id}")), Shape::Lit),
                 };
@@ -778,6 +918,45 @@ impl Gen {
                 Node::Ap { src, dst }
             }
             21 if fl.never && !sc.in_fold => Node::Never,
+            22 if fl.xor => {
+                // join under xor: an instruction that reads a value produced in a par sibling on another peer sits in
+                // the left branch of an xor; while the value has not arrived it must WAIT, never fail into the right branch
+                let i = self.id();
+                let y = format!("v{i}");
+                let mut iters: Vec<Arg> = sc.iters.iter().map(|x| Arg::Var { name: x.clone(), lens: vec![] }).collect();
+                let producer = Node::Call { peer: PeerRef::Lit(rng.below(self.np)), service: "svc".into(), fname: format!("obj{i}"), args: iters.clone(), out: Out::Scalar(y.clone()) };
+                let j = self.id();
+                let sibling = Node::Call { peer: PeerRef::Lit(rng.below(self.np)), service: "svc".into(), fname: format!("f{j}"), args: iters.clone(), out: Out::None };
+                let k = self.id();
+                let user_peer = PeerRef::Lit(rng.below(self.np));
+                let left = match rng.below(4) {
+                    0 => {
+                        let it = format!("it{k}");
+                        let mut a = vec![Arg::Var { name: it.clone(), lens: vec![] }];
+                        a.append(&mut iters.clone());
+                        let body = Node::Call { peer: user_peer, service: "svc".into(), fname: format!("f{k}"), args: a, out: Out::None };
+                        Node::Fold { iterable: Arg::Var { name: y.clone(), lens: vec![Lens::Field("c".into())] }, it: it.clone(), body: Box::new(Node::seq(body, Node::Next(it))), last: None }
+                    }
+                    1 => {
+                        let mut a = vec![Arg::Var { name: y.clone(), lens: vec![Lens::Field("a".into()), Lens::Field("b".into())] }];
+                        a.append(&mut iters.clone());
+                        Node::Call { peer: user_peer, service: "svc".into(), fname: format!("f{k}"), args: a, out: Out::None }
+                    }
+                    2 => Node::Match {
+                        l: Arg::Var { name: y.clone(), lens: vec![Lens::Field("f".into())] },
+                        r: Arg::Str(format!("obj{i}")),
+                        body: Box::new(Node::Call { peer: user_peer, service: "svc".into(), fname: format!("f{k}"), args: iters.clone(), out: Out::None }),
+                    },
+                    _ => Node::seq(
+                        Node::Ap { src: Arg::Var { name: y.clone(), lens: vec![Lens::Field("a".into())] }, dst: format!("av{k}") },
+                        Node::Call { peer: user_peer, service: "svc".into(), fname: format!("f{k}"), args: { let mut a = vec![Arg::Var { name: format!("av{k}"), lens: vec![Lens::Field("b".into())] }]; a.append(&mut iters); a }, out: Out::None },
+                    ),
+                };
+                let h = self.id();
+                let handler = Node::Call { peer: PeerRef::Lit(rng.below(self.np)), service: "svc".into(), fname: format!("handler{h}"), args: sc.iters.iter().map(|x| Arg::Var { name: x.clone(), lens: vec![] }).collect(), out: Out::None };
+                let par = if rng.chance(50) { Node::par(producer, sibling) } else { Node::par(sibling, producer) };
+                Node::seq(par, Node::xor(left, handler))
+            }
             _ => {
                 let kind = if fl.lenses && rng.chance(25) { "obj" } else { "f" };
                 self.call(rng, sc, kind)
@@ -789,10 +968,74 @@ impl Gen {
     }
 }
 
+fn return_node_fold_lens(obj: String, it: String, inner: Node) -> Node {
+    Node::Fold { iterable: Arg::Var { name: obj, lens: vec![Lens::Field("c".into())] }, it, body: Box::new(inner), last: None }
+}
+
 pub fn generate(rng: &mut Rng, np: usize, flags: &Flags, depth: usize) -> Node {
-    let mut g = Gen { np, n: 0, flags: flags.clone() };
+    let mut g = Gen { np, n: 0, flags: flags.clone(), force: None };
     let mut sc = Scope::default();
-    g.gen(rng, depth, &mut sc)
+    let mut node = g.gen(rng, depth, &mut sc);
+    // make sure the features enabled for this history actually occur (a feature that is enabled but never
+    // reached explores nothing): append a canon / stream fold / canon fold over a global stream
+    fn has(n: &Node, pred: &dyn Fn(&Node) -> bool) -> bool {
+        let mut found = false;
+        let mut c = n.clone();
+        c.walk_mut(&mut |x| {
+            if pred(x) {
+                found = true;
+            }
+        });
+        found
+    }
+    if flags.streams && !sc.streams.is_empty() {
+        if flags.canon && rng.chance(70) && !has(&node, &|x| matches!(x, Node::Canon { .. })) {
+            g.force = Some(8);
+            let c = g.gen(rng, 2, &mut sc);
+            let follow = if flags.folds && rng.chance(50) {
+                g.force = Some(11);
+                g.gen(rng, 2, &mut sc)
+            } else {
+                g.gen(rng, 2, &mut sc)
+            };
+            node = Node::seq(node, Node::seq(c, follow));
+        }
+        if flags.sfolds && !flags.frag16 && rng.chance(70) && !has(&node, &|x| matches!(x, Node::Fold { iterable: Arg::Var { name, .. }, .. } if name.starts_with('$'))) {
+            g.force = Some(10);
+            let f = g.gen(rng, 3, &mut sc);
+            node = if rng.chance(70) { Node::seq(node, f) } else { Node::par(node, f) };
+        }
+    }
+    if flags.streams && flags.canon && flags.scalar_ap && !sc.streams.is_empty() && rng.chance(45) {
+        // canon-derived scalars: the whole canonical stream stored into a scalar, an element selected from it by
+        // lens and stored again, both passed on (their tetraplets must keep naming the canon's origin and lens)
+        let s = sc.streams[rng.below(sc.streams.len())].clone();
+        let i = g.id();
+        let cn = format!("#c{i}");
+        let p = rng.below(np);
+        let whole = format!("av{i}w");
+        let head = format!("av{i}h");
+        let q = rng.below(np);
+        let tail = Node::seq(
+            Node::Canon { peer: PeerRef::Lit(p), src: s, dst: cn.clone() },
+            Node::seq(
+                Node::Ap { src: Arg::Canon { name: cn, lens: vec![] }, dst: whole.clone() },
+                Node::seq(
+                    Node::Ap { src: Arg::Var { name: whole.clone(), lens: vec![Lens::Idx(0)] }, dst: head.clone() },
+                    Node::Call {
+                        peer: PeerRef::Lit(q),
+                        service: "svc".into(),
+                        fname: format!("f{i}"),
+                        args: vec![Arg::Var { name: whole, lens: vec![] }, Arg::Var { name: head.clone(), lens: vec![] }, Arg::Var { name: head, lens: vec![Lens::Field("f".into())] }],
+                        out: Out::None,
+                    },
+                ),
+            ),
+        );
+        node = Node::seq(node, tail);
+    }
+    g.force = None;
+    node
 }
 
 // ---------------------------------------------------------------------------------------------
